@@ -39,7 +39,9 @@ where
         let (i, total) = shard();
         let mut r = Rng::for_worker(ctx.seed, ctx.prop, i as u64);
         let mut c = ctx.child();
-        f(i, total, &mut c, &mut r);
+        if let Err(pm) = crate::ev::guard(|| f(i, total, &mut c, &mut r)) {
+            unguarded_panic(&mut c, &pm);
+        }
         ctx.merge(c);
         return;
     }
@@ -55,7 +57,9 @@ where
                     .spawn_scoped(s, move || {
                         crate::ev::install_panic_hook();
                         let mut r = Rng::for_worker(seed, prop, w as u64);
-                        f(w, n, &mut c, &mut r);
+                        if let Err(pm) = crate::ev::guard(|| f(w, n, &mut c, &mut r)) {
+                            unguarded_panic(&mut c, &pm);
+                        }
                         c
                     })
                     .expect("spawn")
@@ -65,6 +69,23 @@ where
     });
     for c in results {
         ctx.merge(c);
+    }
+}
+
+/// A panic that escaped the per-case guards. If it was raised inside the crate under test it is a
+/// violation (the crate panicked on some input of this property's workload); if it was raised in
+/// the harness or in std on the harness's behalf it is a harness error, never a verdict.
+fn unguarded_panic(c: &mut Ctx, pm: &str) {
+    let loc = pm.rsplit(" @ ").next().unwrap_or("");
+    let in_crate = loc.starts_with('/') && !loc.starts_with("/rustc/") && loc.contains("/src/") && !loc.contains("/harness/") && !loc.contains("/.cargo/");
+    if in_crate {
+        c.violation(
+            format!("{}:panic-in-crate:{}", c.prop, crate::ev::panic_sig(pm)),
+            format!("the crate panicked while the monitor's workload was running (outside a per-case guard, so the exact input is not recorded): {}", pm),
+            crate::ev::Case::new("unguarded", 0, &[]),
+        );
+    } else {
+        c.harness_error(format!("a monitor worker panicked outside the crate under test: {}", pm));
     }
 }
 
